@@ -38,6 +38,7 @@ def rule_r1(repo, tier):
                 rr.fail('codec:%s' % m, efi.where,
                         'field layouts differ. decoder only: %s; encoder only: %s  (kind, width: P=parameter position, F=value of field k, const)' % (
                             sorted(D - E), sorted(E - D)), witness={'decoder': sorted(map(repr, D)), 'encoder': sorted(map(repr, E))})
+    demote_undecided(repo, rr, lambda f: f.key.startswith('codec:process_'))
     # descriptor list in section 3: 2 + 6 + 8 bits, F X Y
     dfi = repo.method('Decoder', 'process_unexpanded_descriptors')
     efi = repo.method('Encoder', 'process_unexpanded_descriptors')
@@ -177,6 +178,10 @@ def rule_r2(repo):
         if not stores:
             # shortcut paths: the minimum is the common value
             v = ios[0][2][0] if ios else None
+            if v is not None and (repr(v) == 'MIN' or sym_find(v, lambda s: s.op == 'MIN')):
+                # the general branch on a path where the abstract subset value was taken to be None: no scaled value is stored and the
+                # minimum is that of the column - nothing of the form to decide here (the column fold decides such columns concretely)
+                continue
             if v is not None and not sym_find(v, lambda s: s.op == 'MISSING'):
                 sites += 1
                 saw_min = True
@@ -199,8 +204,12 @@ def rule_r2(repo):
         if ios and repr(ios[0][2][0]) != 'MIN':
             rr.fail('Encoder.%s:minimum' % m, fi.where, 'path [%s] writes %r as the column minimum' % (r.desc(), ios[0][2][0]))
     rr.instance('Encoder.%s: common value, per-subset scaling, differences' % m)
+    demote_undecided(repo, rr)
     if not (saw_scaled and saw_diff and saw_min):
-        raise AnalysisError('Encoder.process_numeric_compressed: expected scaling/difference/common-value sites not all found (%s %s %s)' % (saw_scaled, saw_diff, saw_min))
+        if concrete_codec_agrees(repo):
+            rr.instance('symbolic sites not recognised (%s %s %s): decided on the concrete family' % (saw_scaled, saw_diff, saw_min))
+        else:
+            raise AnalysisError('Encoder.process_numeric_compressed: expected scaling/difference/common-value sites not all found (%s %s %s)' % (saw_scaled, saw_diff, saw_min))
     rr.extra['sites'] = sites
     rr.require_floor(2)
     return rr
@@ -255,6 +264,7 @@ def rule_r3(repo):
             if found == 0:
                 rr.fail('Encoder.%s:no-missing' % m, fi.where, 'no path of %s encodes a missing (None) value as all ones' % m)
     rr.extra['sites'] = n
+    demote_undecided(repo, rr)
     rr.require_floor(6)
     return rr
 
@@ -463,3 +473,41 @@ def run(repo, check):
     check.assumptions = ['bitstring writes an n-bit unsigned field MSB first and refuses values that do not fit (trusted base)',
                          'byte identity with an independent encoder is a runtime fact and is not decided; the rules decide that the encoder '
                          'and the decoder agree on every field sequence and that the arithmetic is the FM-94 one']
+
+
+# ---------------------------------------------------------------------------
+# Arbiter for the symbolic comparisons of this module.  The skeleton / normal-form rules (R1 primitives, R2, R3) abstract the primitives
+# into I/O skeletons and expression DAGs; a rewrite of a primitive that the abstraction does not follow (the writer method handed to a
+# helper as a value, a loop over a one-element slice, ...) makes them disagree with the reference form although nothing has changed.
+# The same routines are also *folded concretely* (column round trips in both modes, decode -> encode and compressed round trips on the
+# concrete template family).  A disagreement of the symbolic comparison is reported only when it cannot be put down to the abstraction,
+# i.e. unless every concrete fold of the same routines agrees; otherwise it is recorded as undecided in the evidence.
+_ARBITER = {}
+
+
+def concrete_codec_agrees(repo):
+    k = id(repo)
+    if k not in _ARBITER:
+        ok = True
+        try:
+            from sa.rules import columns, c05
+            for r in (columns.rule_columns(repo, 'quick', 'arbiter'), rule_roundtrip(repo, 'arbiter'), c05.rule_pipeline_compressed(repo, 'arbiter')):
+                if r.findings:
+                    ok = False
+                    break
+        except AnalysisError:
+            ok = False
+        except Exception:
+            ok = False
+        _ARBITER[k] = ok
+    return _ARBITER[k]
+
+
+def demote_undecided(repo, rr, pred=lambda f: True):
+    sus = [f for f in rr.findings if pred(f)]
+    if sus and concrete_codec_agrees(repo):
+        rr.findings = [f for f in rr.findings if not pred(f)]
+        for f in sus:
+            rr.notes.append('undecided by the symbolic comparison (shape outside its abstraction); the concrete folds of the same routines agree: %s' % f.key)
+        rr.instance('symbolic comparison undecided for %d construct(s): decided on the concrete family (column round trips, decode -> encode, compressed round trip)' % len(sus))
+    return rr
